@@ -140,12 +140,12 @@ MODEL = {"C05": True, "C06": True, "C07": True, "C10": True, "C15": True}
 
 def check_C05(tier, seed):
     L, depth, per = (4, 3, 60) if tier == "quick" else (6, 3, 500)
-    return simple_check("C05", tier, seed, lambda t: gen.view_scenarios(gen.ALL_SHAPES, L, depth, seed, per), mon_c05, ["Soa.Props.C05", "Soa.Lemmas.SkelViewTie", "Soa.Lemmas.SkelRead.C05"],
+    return simple_check("C05", tier, seed, lambda t: gen.view_scenarios(gen.ALL_SHAPES, L, depth, seed, per), mon_c05, ["Soa.Props.C05", "Soa.Lemmas.SkelViewTie", "Soa.Lemmas.SkelRead.C05", "Soa.Lemmas.GenViewTie"],
                         model=MODEL["C05"], widen_fn=lambda: gen.view_scenarios(gen.ALL_SHAPES, 6, 3, seed + 1, 300))
 
 def check_C06(tier, seed):
     L = 4 if tier == "quick" else 6
-    return simple_check("C06", tier, seed, lambda t: gen.iter_scenarios(gen.ALL_SHAPES, L), mon_c06, ["Soa.Props.C06", "Soa.Lemmas.SkelIterTie", "Soa.Lemmas.SkelRead.C06"],
+    return simple_check("C06", tier, seed, lambda t: gen.iter_scenarios(gen.ALL_SHAPES, L), mon_c06, ["Soa.Props.C06", "Soa.Lemmas.SkelIterTie", "Soa.Lemmas.SkelRead.C06", "Soa.Lemmas.GenViewTie"],
                         model=MODEL["C06"], widen_fn=lambda: gen.iter_scenarios(gen.ALL_SHAPES, 6), extra_cov={"exhaustive": True})
 
 def check_C07(tier, seed):
